@@ -71,27 +71,44 @@ class LevelGround(object):
         self.srs = srs
         self.x0 = x0
         self.y0 = y0
+        self.levels = []      # advertised resolutions (floats, coarse -> fine), set after the documents are read
         self._g = {}
 
-    @staticmethod
-    def anchor(res):
-        """-> (k, ambiguous): index of the nearest anchor 2**(k/2); ambiguous within 1e-6 of a boundary."""
-        t = 2.0 * math.log2(float(res))
-        k = int(math.floor(t + 0.5))
-        return k, abs(abs(t - k) - 0.5) < 1e-5
+    def set_levels(self, resolutions):
+        self.levels = []
+        for r in sorted(set(float(r) for r in resolutions), reverse=True):
+            # the same level is printed as units-per-pixel in one document and as a scale denominator in another
+            if not self.levels or abs(math.log2(self.levels[-1] / r)) > 1e-6:
+                self.levels.append(r)
+        self._g = {}
 
-    def ground(self, k):
-        g = self._g.get(k)
+    def anchor(self, res):
+        """-> (key, ambiguous).  key = index of the advertised resolution nearest to res (log scale), so the
+        decision boundaries lie half-way between levels, far from every resolution MapProxy legitimately asks
+        for (meta tiles clipped at the grid bbox are rescaled by a fraction of a percent).  Without advertised
+        levels: half-octave ladder."""
+        t = math.log2(float(res))
+        if not self.levels:
+            k = int(math.floor(2 * t + 0.5))
+            return ('o', k), abs(abs(2 * t - k) - 0.5) < 0.05
+        d = sorted((abs(t - math.log2(r)), i) for i, r in enumerate(self.levels))
+        amb = len(d) > 1 and (d[1][0] - d[0][0]) < 0.03
+        return ('l', d[0][1]), amb
+
+    def ground(self, key):
+        g = self._g.get(key)
         if g is None:
-            g = ground.Ground(self.srs, r0=2.0 ** (k / 2.0), period_px=PERIOD_PX, x0=self.x0, y0=self.y0, version=k)
-            self._g[k] = g
+            kind, k = key
+            r0 = self.levels[k] if kind == 'l' else 2.0 ** (k / 2.0)
+            g = ground.Ground(self.srs, r0=r0, period_px=PERIOD_PX, x0=self.x0, y0=self.y0, version=k)
+            self._g[key] = g
         return g
 
     def render(self, info):
         w, h = info['size']
         res = (info['bbox'][2] - info['bbox'][0]) / float(w)
-        k, _ = self.anchor(res)
-        return self.ground(k).render(info['bbox'], info['size'], info['srs'])
+        key, _ = self.anchor(res)
+        return self.ground(key).render(info['bbox'], info['size'], info['srs'])
 
 
 # ------------------------------------------------------------------------------------------------
@@ -195,7 +212,7 @@ def cases(draw):
     if draw(st.integers(0, 3)) == 0:
         fx0 = draw(st.sampled_from([0.0, 0.13, 0.3, 0.41]))
         fy0 = draw(st.sampled_from([0.0, 0.17, 0.25, 0.38]))
-        cov = {'where': draw(st.sampled_from(['source', 'source', 'cache'])),
+        cov = {'where': draw(st.sampled_from(['source', 'cache'])),
                'frac': (fx0, fy0, min(1.0, fx0 + draw(st.sampled_from([0.35, 0.5, 0.59, 1.0]))),
                         min(1.0, fy0 + draw(st.sampled_from([0.35, 0.5, 0.62, 1.0]))))}
     opts = {'tms_grid_names': draw(st.booleans()), 'kml_grid_names': draw(st.booleans()),
@@ -295,29 +312,40 @@ def grid_path_name(case, facts, use_grid_names):
 # oracle
 
 class Judge(object):
-    def __init__(self, lg, srs, cov):
+    def __init__(self, lg, srs, area, cov):
         self.lg = lg
         self.srs = srs
+        self.area = area      # grid bbox intersected with the coverage
         self.cov = cov
 
-    def judge(self, arr, rect, size):
-        """-> dict(n=judged pixels, bad=rejected, worst=excess, ambiguous=bool)"""
+    def judge(self, arr, rect, size, rho=RHO):
+        """-> dict(n=judged pixels, bad=rejected, worst=excess, ambiguous=bool, partial=bool)"""
         w, h = size
         rect = tuple(float(v) for v in rect)
         res = (rect[2] - rect[0]) / w
-        k, amb = self.lg.anchor(res)
+        out = {'n': 0, 'bad': 0, 'worst': 0.0, 'ambiguous': False, 'partial': False}
+        key, amb = self.lg.anchor(res)
         if amb:
-            return {'n': 0, 'bad': 0, 'worst': 0.0, 'ambiguous': True}
+            out['ambiguous'] = True
+            return out
+        if self.cov is not None:
+            # a tile that crosses the edge of a coverage is assembled by MapProxy from a clipped upstream request
+            # whose few pixels are rescaled to the clip rectangle; only tiles wholly inside the coverage are judged
+            slack = 1e-9 * max(abs(v) for v in rect) + 1e-12
+            c = self.cov
+            if not (rect[0] >= c[0] - slack and rect[1] >= c[1] - slack and rect[2] <= c[2] + slack and rect[3] <= c[3] + slack):
+                out['partial'] = True
+                return out
         px, py = ground.sample_lattice(size, n_target=1200, border=True)
         # only pixels well inside the data area (grid bbox - "tiles may overlap this bbox" - and coverage)
-        cls = ground.region_class(px, py, rect, size, self.srs, self.cov, self.srs, rho=1.5)
+        cls = ground.region_class(px, py, rect, size, self.srs, self.area, self.srs, rho=1.5)
         keep = cls == 1
         px, py = px[keep], py[keep]
         if len(px) == 0:
-            return {'n': 0, 'bad': 0, 'worst': 0.0, 'ambiguous': False}
-        idx, worst = self.lg.ground(k).check_pixels(arr, px, py, rect, size, self.srs, rho=RHO, eps=EPS)
-        return {'n': int(len(px)), 'bad': int(len(idx)), 'worst': float(worst.max()) if len(worst) else 0.0,
-                'ambiguous': False}
+            return out
+        idx, worst = self.lg.ground(key).check_pixels(arr, px, py, rect, size, self.srs, rho=rho, eps=EPS)
+        out.update(n=int(len(px)), bad=int(len(idx)), worst=float(worst.max()) if len(worst) else 0.0)
+        return out
 
     @staticmethod
     def rejected(j):
@@ -410,7 +438,8 @@ class ConfigRun(object):
         lg = LevelGround(self.facts['srs'], x0=self.facts['bbox'][0], y0=self.facts['bbox'][1])
         b = self.facts['bbox']
         area = b if not self.cov else (max(b[0], self.cov[0]), max(b[1], self.cov[1]), min(b[2], self.cov[2]), min(b[3], self.cov[3]))
-        self.judge = Judge(lg, self.facts['srs'], area)
+        self.judge = Judge(lg, self.facts['srs'], area, self.cov)
+        self.lg = lg
         up = ground.Upstream(None)
         up.add_wms('wms.test', render_fn=lg.render)
         try:
@@ -427,6 +456,7 @@ class ConfigRun(object):
                 self.fetch = refclient.wsgi_fetcher(app)
                 self.up = up
                 self._load_documents()
+                lg.set_levels(self._advertised_resolutions())
                 self._flip_analysis()
                 for pick in self.case['picks']:
                     self._do_pick(pick)
@@ -495,7 +525,9 @@ class ConfigRun(object):
             n = max(1, round(H / span))
             worst = max(worst, abs(n * span - H) / r)
         self.flip_dev_px = float(worst)
-        self.flippable = worst <= FLIP_TOL_PX
+        # sqrt2 grids: "resolutions that are not of factor 2" in the words of the documented limitation (their odd
+        # levels never flip cleanly; TMS / KML / WMS-C only show every second level, so the documents cannot tell)
+        self.flippable = worst <= FLIP_TOL_PX and not self._is_sqrt2()
         self.stats.classes['config:' + ('flippable' if self.flippable else 'not-flippable')] += 1
         self.stats.classes['config:total'] += 1
         for c in self.base_classes:
@@ -515,19 +547,57 @@ class ConfigRun(object):
         return self.cov[0] != b[0] or self.cov[1] != b[1]
 
     # -- address selection per service ---------------------------------------------------------------
+    def _select(self, pick, n_levels, level_info):
+        """-> (level, col, row, (row_lo, row_hi)) or None.  level_info(level) -> (col_lo, col_hi, row_lo, row_hi,
+        x_anchor, span_x, y_anchor, span_y, rows_downwards).  With a coverage the drawn level is replaced by the nearest
+        level (finer first) that has a cell wholly inside the coverage and the ranges are narrowed to such cells: a
+        selection heuristic only, cells crossing the coverage edge cannot be judged."""
+        i = pick_index(pick['lvl'], 0, n_levels - 1)
+        if i is None:
+            return None
+        order = [i]
+        if self.cov:
+            order = list(range(i, n_levels)) + list(range(i - 1, -1, -1))
+        first = None
+        for lv in order:
+            c_lo, c_hi, r_lo, r_hi, xa, sx, ya, sy, down = level_info(lv)
+            if c_lo > c_hi or r_lo > r_hi:
+                continue
+            rows_all = (r_lo, r_hi)
+            if first is None:
+                first = (lv, c_lo, c_hi, r_lo, r_hi, rows_all)
+            if not self.cov:
+                break
+            a, b = math.ceil((Fr(self.cov[0]) - xa) / sx), math.floor((Fr(self.cov[2]) - xa) / sx) - 1
+            if down:
+                c, d = math.ceil((ya - Fr(self.cov[3])) / sy), math.floor((ya - Fr(self.cov[1])) / sy) - 1
+            else:
+                c, d = math.ceil((Fr(self.cov[1]) - ya) / sy), math.floor((Fr(self.cov[3]) - ya) / sy) - 1
+            a, b, c, d = max(a, c_lo), min(b, c_hi), max(c, r_lo), min(d, r_hi)
+            if a <= b and c <= d:
+                first = (lv, a, b, c, d, rows_all)
+                break
+        if first is None:
+            return None
+        lv, c_lo, c_hi, r_lo, r_hi, rows_all = first
+        return lv, pick_index(pick['col'], c_lo, c_hi), pick_index(pick['row'], r_lo, r_hi), rows_all
+
     def _tile_for_pick(self, pick):
         svc = pick['svc']
         if svc == 'tms':
             tm = self.tms_map
             if tm is None or not tm.tilesets:
                 return None
-            i = pick_index(pick['lvl'], 0, len(tm.tilesets) - 1)
-            x_lo, x_hi, y_lo, y_hi = tm.tile_range(i, MIN_OVERLAP_PX)
-            x, y = pick_index(pick['col'], x_lo, x_hi), pick_index(pick['row'], y_lo, y_hi)
-            if x is None or y is None:
+
+            def info(i):
+                sx, sy = tm.span(i)
+                return tm.tile_range(i, MIN_OVERLAP_PX) + (tm.origin[0], sx, tm.origin[1], sy, False)
+            got = self._select(pick, len(tm.tilesets), info)
+            if got is None:
                 return None
+            i, x, y, rows_all = got
             t = tm.tile(i, x, y)
-            t.extra['rows'] = (y_lo, y_hi)
+            t.extra['rows'] = rows_all
             t.extra['remap'] = (tm.profile or '').startswith('global-')
             return t
         if svc in ('wmts-kvp', 'wmts-rest'):
@@ -542,20 +612,14 @@ class ConfigRun(object):
             ms = c.matrix_sets[tms].matrices
             if not ms:
                 return None
-            mi = pick_index(pick['lvl'], 0, len(ms) - 1)
-            c_lo, c_hi, r_lo, r_hi = c.tile_range('lyr', tms, mi)
-            rows_all = (r_lo, r_hi)
-            if self.cov:
-                # selection only: prefer matrix cells that touch the configured coverage (others are blank)
-                m = ms[mi]
-                sx, sy = m.span()
-                a, b_ = refclient._range_intersecting(Fr(self.cov[0]), Fr(self.cov[2]), m.top_left[0], sx)
-                c_lo, c_hi = max(c_lo, a), min(c_hi, b_)
-                a, b_ = refclient._range_intersecting(Fr(self.cov[1]), Fr(self.cov[3]), m.top_left[1], sy, downwards=True)
-                r_lo, r_hi = max(r_lo, a), min(r_hi, b_)
-            col, row = pick_index(pick['col'], c_lo, c_hi), pick_index(pick['row'], r_lo, r_hi)
-            if col is None or row is None:
+
+            def info(mi):
+                sx, sy = ms[mi].span()
+                return c.tile_range('lyr', tms, mi) + (ms[mi].top_left[0], sx, ms[mi].top_left[1], sy, True)
+            got = self._select(pick, len(ms), info)
+            if got is None:
                 return None
+            mi, col, row, rows_all = got
             t = c.tile('lyr', tms, mi, col, row, encoding=enc)
             t.extra['rows'] = rows_all
             return t
@@ -563,13 +627,16 @@ class ConfigRun(object):
             if self.wmsc is None:
                 return None
             ts = self.wmsc_ts
-            li = pick_index(pick['lvl'], 0, len(ts.resolutions) - 1)
-            x_lo, x_hi, y_lo, y_hi = self.wmsc.tile_range(ts, li, MIN_OVERLAP_PX)
-            x, y = pick_index(pick['col'], x_lo, x_hi), pick_index(pick['row'], y_lo, y_hi)
-            if x is None or y is None:
+
+            def info(li):
+                sx, sy = self.wmsc.span(ts, li)
+                return self.wmsc.tile_range(ts, li, MIN_OVERLAP_PX) + (ts.bbox[0], sx, ts.bbox[1], sy, False)
+            got = self._select(pick, len(ts.resolutions), info)
+            if got is None:
                 return None
+            li, x, y, rows_all = got
             t = self.wmsc.tile(ts, li, x, y)
-            t.extra['rows'] = (y_lo, y_hi)
+            t.extra['rows'] = rows_all
             return t
         if svc == 'kml':
             return self._kml_tile(pick)
@@ -720,8 +787,9 @@ class ConfigRun(object):
                                % (tile.srs, self.facts['srs']), pick, tile)
                 return False, None
             self.stats.excluded[why] += 1
-            return (svc == 'kml' and why != 'kml-empty-box'), arr
-        j = self.judge.judge(arr, rect, size)
+            return False, arr
+        # a KML box is known to 6 decimals of a degree only (<= 0.05 px by the precondition above)
+        j = self.judge.judge(arr, rect, size, rho=RHO + (0.06 if svc == 'kml' else 0.0))
         if j['ambiguous']:
             self.stats.inconclusive['resolution-at-ground-anchor-boundary'] += 1
             return False, None
@@ -738,8 +806,10 @@ class ConfigRun(object):
                 classes.append('nt:level>0')
             if off_diag:
                 classes.append('nt:off-diagonal')
+        elif j['partial']:
+            classes.append('not-judged:tile-crosses-coverage-edge')
         else:
-            classes.append('answer:no-pixel-inside-coverage')
+            classes.append('not-judged:no-pixel-inside-data-area')
         if not self.flippable:
             classes.append('native-origin-only')
         self.stats.case(key=key, nontrivial=nontrivial, classes=classes,
@@ -754,7 +824,9 @@ class ConfigRun(object):
                            % (svc, (tile.level, tile.col, tile.row), [float(v) for v in rect], j['bad'], j['n'], j['worst'],
                               why), pick, tile)
             return False, None
-        return True, arr
+        # (True, arr) only for tiles whose pixels were judged: blank tiles outside the data area legitimately differ
+        # between services (a WMS answers with its background colour, tile services with a transparent tile)
+        return j['n'] > 0, arr
 
     # -- diagnosis (only names the root cause; the verdict is already taken) -----------------------------
     def _passes(self, arr, rect, size):
@@ -778,14 +850,9 @@ class ConfigRun(object):
                 tl = m.top_left
                 sx, sy = m.span()[0] * f, m.span()[1] * f
                 alt = (tl[0] + tile.col * sx, tl[1] - (tile.row + 1) * sy, tl[0] + (tile.col + 1) * sx, tl[1] - tile.row * sy)
-                alt_lg = self.judge.lg.anchor(float(m.res * f))
-                if not alt_lg[1]:
-                    px, py = ground.sample_lattice(size, n_target=1200, border=True)
-                    idx, _ = self.judge.lg.ground(alt_lg[0]).check_pixels(arr, px, py, tuple(float(v) for v in alt), size,
-                                                                            self.facts['srs'], rho=RHO, eps=EPS)
-                    if len(idx) <= max(2, 0.01 * len(px)) and not self.cov:
-                        return SIG_WMTS_UNITS, ('; ScaleDenominator was computed as if one CRS unit were one metre (unit is %s m)'
-                                                % float(f))
+                if self._passes(arr, alt, size):
+                    return SIG_WMTS_UNITS, ('; ScaleDenominator was computed as if one CRS unit were one metre (unit is %s m)'
+                                            % float(f))
             if self._is_sqrt2() and tile.level > 0:
                 return SIG_WMTS_SQRT2, '; sqrt2 grid, matrix %s' % tile.extra.get('matrix')
         # generic hypotheses: mirrored row, neighbouring level
@@ -905,10 +972,21 @@ class ConfigRun(object):
                     twins.append(refclient.Tile('tiles-nw', u, tile.srs if tile.service != 'kml' else tm.srs, rect,
                                                 tm.tile_size, zi, wmts_addr[1], wmts_addr[2]))
         self.stats.classes['cross:twins=%d' % min(len(twins), 6)] += 1
-        for tw in twins:
+        passed = {tile.service}
+        # located twins first; the /tiles addresses are derived from the TMS / WMTS address and are only meaningful
+        # when that parent address itself was served correctly
+        order = [t for t in twins if not t.service.startswith('tiles-')] + [t for t in twins if t.service.startswith('tiles-')]
+        for tw in order:
+            if tw.service == 'tiles-sw' and 'tms' not in passed:
+                self.stats.notes['tiles-sw-twin-skipped(parent TMS address not confirmed)'] += 1
+                continue
+            if tw.service == 'tiles-nw' and not (passed & {'wmts-kvp', 'wmts-rest'}):
+                self.stats.notes['tiles-nw-twin-skipped(parent WMTS address not confirmed)'] += 1
+                continue
             ok, arr2 = self._evaluate(tw, pick, primary=False)
             if not ok or arr2 is None:
                 continue
+            passed.add(tw.service)
             self.stats.classes['cross-pair:%s=%s' % (tile.service, tw.service)] += 1
             if arr2.shape != arr.shape or not np.array_equal(arr2, arr):
                 diff = 'shape %r vs %r' % (arr.shape, arr2.shape) if arr2.shape != arr.shape else \
